@@ -80,3 +80,29 @@ pub fn control_q1_unflagged_write(fs: &CtlFs, buf: &[u8]) -> Result<usize, DevEr
     let mut d = fs.disk.borrow_mut();
     Write::write(&mut *d, buf)
 }
+
+// ---- C05
+pub struct CtlInfo {
+    pub free_cluster_count: Option<u32>,
+    pub next_free_cluster: Option<u32>,
+    pub dirty: bool,
+}
+/// A5.2 control: a counter setter that forgets the latch
+pub fn control_a5_2_setter_without_latch(i: &mut CtlInfo, n: u32) {
+    i.free_cluster_count = Some(n);
+}
+fn ctl_fat_mutator(d: &mut Dev) -> Result<u32, Error<DevErr>> {
+    Ok(Write::write(d, &[0u8; 4])? as u32)
+}
+fn ctl_counter_update(i: &mut CtlInfo, n: u32) {
+    i.free_cluster_count = Some(n);
+    i.dirty = true;
+}
+/// A5.1 control: a FAT mutation whose Ok path does not update the cached count
+pub fn control_a5_1_unaccounted(d: &mut Dev, i: &mut CtlInfo, skip: bool) -> Result<(), Error<DevErr>> {
+    let n = ctl_fat_mutator(d)?;
+    if !skip {
+        ctl_counter_update(i, n);
+    }
+    Ok(())
+}
